@@ -39,6 +39,19 @@ thread_local! {
 	static LAST_PANIC: std::cell::RefCell<Option<String>> = const { std::cell::RefCell::new(None) };
 }
 
+/// Address-space cap for worker / single-case processes: an allocation running away (in the
+/// library or in the harness) ends one process instead of the machine.
+pub fn limit_memory() {
+	let lim = libc::rlimit {
+		rlim_cur: 12 << 30,
+		rlim_max: 12 << 30,
+	};
+	// SAFETY: plain syscall with a valid struct
+	unsafe {
+		libc::setrlimit(libc::RLIMIT_AS, &lim);
+	}
+}
+
 pub fn install_panic_hook() {
 	std::panic::set_hook(Box::new(|info| {
 		let loc = info
@@ -263,6 +276,7 @@ fn run_dir(prop: &str) -> PathBuf {
 
 pub fn worker_main(spec: &PropSpec, thorough: bool, seed: u64, shard: u64, nshards: u64) -> i32 {
 	install_panic_hook();
+	limit_memory();
 	let dir = run_dir(spec.id);
 	let cur = std::fs::OpenOptions::new()
 		.create(true)
@@ -501,26 +515,23 @@ pub fn parent_main(spec: &PropSpec, thorough: bool, seed: u64) -> i32 {
 		}
 	}
 	// crashes: confirm determinism by re-running the single case alone
+	let mut confirmations = 0;
 	for (shard, how, case) in &crashes {
 		if *case == 0 {
 			inconclusive_workers += 1;
 			eprintln!("worker {shard} died ({how}) outside any case: inconclusive (see {}/shard-{shard}.stderr)", dir.display());
 			continue;
 		}
-		let st = std::process::Command::new(&exe)
-			.arg("case")
-			.arg(spec.id)
-			.arg(if thorough { "thorough" } else { "quick" })
-			.arg(case.to_string())
-			.stdout(std::process::Stdio::null())
-			.stderr(std::process::Stdio::null())
-			.status();
-		let reproduced = match st {
-			Ok(s) => {
-				use std::os::unix::process::ExitStatusExt;
-				s.signal().is_some() || s.code() == Some(101) || s.code() == Some(134)
+		confirmations += 1;
+		let reproduced = if confirmations > 4 {
+			// enough witnesses of this run were confirmed; further deaths are counted, not re-run
+			false
+		} else {
+			match run_isolated(spec.id, thorough, *case, 60.0) {
+				Isolated::Died(_) => true,
+				Isolated::CpuBudget(_) => true,
+				_ => false,
 			}
-			Err(_) => false,
 		};
 		if reproduced {
 			violations.push(Violation {
